@@ -7,6 +7,7 @@ Library models used here (each sanity-tested in contracts/c20.py::sanity):
   np.eye        exact identity
   np.linalg     slogdet -> (SIGN_k, LOGDET_k) symbols with the matrix recorded; LinAlgError for < 2-D input (as numpy)
   ss.multivariate_normal.logpdf   recording stub: returns LOGPDF_k, arguments recorded (the MVN log density itself is scipy's)
+  graphical_lasso / cov_warton (inside gaussian_syn_likelihood)   recording stubs returning fresh symbolic matrices
   loggamma      uninterpreted function LG
   math          exact logs (math.log(2) stays log(2))
 Python float literals are read as the decimal number they denote (A-REAL): Floats left in an extracted expression are
